@@ -2,9 +2,15 @@
 # Builds the framework from files on disk only (offline). Idempotent.
 set -e
 cd "$(dirname "$0")"
-export CARGO_NET_OFFLINE=true RUSTUP_TOOLCHAIN=1.91.1
+export CARGO_NET_OFFLINE=true
 mkdir -p .build evidence
 cp /repo/Cargo.lock engines/driver/Cargo.lock
-(cd engines/driver && CARGO_TARGET_DIR=../../.build/driver cargo build --offline -q)
+(cd engines/driver && RUSTUP_TOOLCHAIN=1.91.1 CARGO_TARGET_DIR=../../.build/driver cargo build --offline -q)
 python3-vt -c "import z3; print('z3', z3.get_version_string())"
+# warm the MIR cache (nightly front end, no codegen)
+python3-vt -c "
+import sys
+sys.path[:0]=['lib','engines/mirsym']
+import kernels
+print(kernels.emit_mir())"
 echo setup ok
